@@ -47,8 +47,13 @@ func errStr(e error) string {
 	return e.Error()
 }
 
-func infoStr(o sizedObj) string {
+func infoStr(o sizedObj) (out string) {
 	var b bytes.Buffer
+	defer func() {
+		if r := recover(); r != nil {
+			out = fmt.Sprintf("%spanic in Info: %v", b.String(), r)
+		}
+	}()
 	_ = o.Info(&b, "all:1", "", " ")
 	return b.String()
 }
